@@ -53,6 +53,24 @@ CLAIMED = {
     "C18": ("§C18", "Loop-free coalition operators decided for ALL id pairs below 2^16 at once (bit-vector queries); looping operations and the id-array implementations explored "
             "with one solver-pruned path per coalition for n<=6 (8) against set-theoretic references; predicates on symbolic games: returned verdict <=> textbook formula with the documented tolerance.",
             "Trusts: z3 (QF_BV, LRA), symx carrier, np.isclose model."),
+    "C10": ("§C10", "Every registry key except 'convex' executed at n=3 (4, 5 for cheap families) against an RNG stub whose continuous draws are free reals in the open interval "
+            "and whose discrete draws are explored exhaustively: z3 decides no-exception, player count, v(empty)=0, superadditivity (and monotonicity for the SAM families) for all draws; "
+            "identical streams give identical games also across an in-between call with another player count. Graph-weight / networkx families only at the matrix level (see note).",
+            "Trusts: z3, symx carrier, RNG stub contract, UF axioms for square/exp. Graph distribution families rely on the C15 matrix lemma + documented non-negative support (executed concretely only). "
+            "covg / xs6 / oxs are path-budgeted; *_norm_additive with >=3 parts may be reported inconclusive (NRA)."),
+    "C11": ("§C11", "Real sample_exploitabilities_of_action_sequences / MetaGame / get_best_exploitability on symbolic superadditive games with a Pool stub: the enumerated sets are exactly all <=k subsets once, "
+            "every reported gap is z3-equal to the gap of a fresh game knowing start ∪ set, for P in {1,2,3,5,16}; best-states minimum and attaining set along every ordering of the running minimum (forked).",
+            "Trusts: z3, symx carrier, Pool stub (CPython chunking, per-chunk deep copy). Real OS processes are outside."),
+    "C12": ("§C12", "Real evaluate/eval_one/ModelInstance/solvers on draw-indexed symbolic games: Part A (P=1) every recorded row equals the gap of a fresh game along the recorded actions of the "
+            "repetition's own draw; Part B: independence of repetitions and equality across worker counts under the Pool stub, plus 'every column is a true trajectory of some draw'.",
+            "Trusts: z3, symx carrier, Pool stub, draw-counter RNG. KNOWN FINDING C12/partB/pool-chunk-rng-replay (see known_findings.txt) is reported as KNOWN-FINDING; every other obligation stays armed."),
+    "C13": ("§C13", "At every listed reachable state the real solvers' choice is decided against reference one-step rewards from fresh games: greedy / worst-greedy extremal with lowest-index ties "
+            "(forks over the comparisons), largest, random for every outcome; environment term-identical before/after; expected-greedy extension minimality, no repeats, monotone curve, optimum for one reveal.",
+            "Trusts: z3, symx carrier, choice stub, np.argmin model, Pool stub."),
+    "C20": ("§C20", "Real save_json executed on an in-memory file-system model with a SYMBOLIC crash index: the engine forks at every file-system operation (process death and KeyboardInterrupt "
+            "semantics), payloads up to > one 8 KiB buffer, histories 0..3; at every crash point the results file is byte-equal to the old or the complete new file, parses, keeps earlier runs. "
+            "The model is validated each run against the real file system (forked child dying at the same operation).",
+            "Trusts: FS model semantics (validated against the real FS each run); the solver's role is confined to the crash variable; power-loss durability outside."),
 }
 
 NOT_YET = {}
